@@ -107,7 +107,10 @@ macro_rules! field_impl {
             }
 
             pub fn set_bit(&mut self, bit: usize, to: bool) {
-                self.0.set_bit(bit, to);
+                // set the bit in the canonical value, then go back to (reduced) Montgomery form
+                let mut a = U256::from(*self);
+                a.set_bit(bit, to);
+                *self = Self::new_mul_factor(a);
             }
 
             #[inline]
